@@ -95,10 +95,10 @@ def showLastDiag (d : Diag.PState) : String :=
       | .panic => "panic"
     s!"{hex4 l.info.flags.toNat}/{l.info.ident.toNat}/{showOptU8 l.info.master}/{ext}"
 
-def b01 (b : Bool) : String := if b then "1" else "0"
+def dpB01 (b : Bool) : String := if b then "1" else "0"
 
 def showPeriph (i : Nat) (p : Peripheral) : String :=
-  s!" [{i} {p.address.toNat} {b01 p.isLive}{b01 p.isRunning} i={bytesToHex p.piI} q={bytesToHex p.piQ} d={showLastDiag p.diag}]"
+  s!" [{i} {p.address.toNat} {dpB01 p.isLive}{dpB01 p.isRunning} i={bytesToHex p.piI} q={bytesToHex p.piQ} d={showLastDiag p.diag}]"
 
 def showSlots : List (Option Peripheral) → Nat → String
   | [], _ => ""
@@ -114,7 +114,7 @@ def showEvents (e : Events) : String :=
   let p := match e.peripheral with
     | none => "-"
     | some h => s!"{h.index}:{h.address.toNat}:{eventName h.ev}"
-  s!"ev cc={b01 e.cycleCompleted} p={p}"
+  s!"ev cc={dpB01 e.cycleCompleted} p={p}"
 
 /-! ### Engine -/
 
